@@ -25,6 +25,7 @@ import shutil
 import signal
 import sys
 import tempfile
+import threading
 import time
 import traceback
 
@@ -298,12 +299,49 @@ def pmap(fn, items, budget=60.0, chunksize=None, jobs=None, fresh=False):
         # still an unused copy of the parent
         _TASK_FN = functools.partial(_run_forked, fn)
     pool = ctx.Pool(jobs, initializer=_worker_init)
+    done = False
     try:
         for r in pool.imap_unordered(_run_task, list(enumerate(items)), chunksize):
             yield r
+        done = True
     finally:
-        pool.terminate()
-        pool.join()
+        _shutdown_pool(pool, graceful=done)
+
+
+def _shutdown_pool(pool, graceful):
+    """Ends a pool without ever blocking for good.
+
+    Pool.terminate() signals the workers with SIGTERM and then joins them; a worker that receives the signal just before it
+    blocks on the task-queue semaphore never runs its Python-level handler and is waited for indefinitely (observed under
+    heavy machine load).  So: when every result has been received the pool is closed (workers leave through the queue
+    sentinel, no signals involved); in every case the join runs under a watchdog that falls back to SIGKILL."""
+    procs = list(getattr(pool, '_pool', ()))
+
+    def finish():
+        try:
+            if graceful:
+                pool.close()
+                pool.join()
+            else:
+                pool.terminate()
+                pool.join()
+        except Exception:
+            pass
+    t = threading.Thread(target=finish, daemon=True)
+    t.start()
+    t.join(20 if graceful else 10)
+    if t.is_alive():
+        for pr in procs + list(getattr(pool, '_pool', ())):
+            try:
+                os.kill(pr.pid, signal.SIGKILL)
+            except (OSError, AttributeError, TypeError):
+                pass
+        if graceful:
+            try:
+                pool.terminate()
+            except Exception:
+                pass
+        t.join(30)
 
 
 # ---------------------------------------------------------------------------
